@@ -48,7 +48,8 @@ impl<R: BufRead> BufRead for PacketBodyReader<R> {
                 buffer.advance(amt);
             }
             State::Done { .. } => {}
-            State::Error => panic!("PacketBodyReader errored"),
+            // `consume` after an error must not panic (the reader keeps returning `Err`)
+            State::Error => {}
         }
     }
 }
